@@ -32,6 +32,9 @@ import (
 	"encoding/base64"
 	"encoding/binary"
 	"fmt"
+	"go/ast"
+	"go/parser"
+	"go/token"
 	"io"
 	"net"
 	"net/http"
@@ -52,6 +55,89 @@ import (
 func init() {
 	vh.Register("sniff", func() vh.Component { return &sniffComp{} })
 	vh.RegisterConsts(sniff.VerifConsts)
+	vh.RegisterConsts(sniffShape)
+}
+
+// sniffShape: structural facts of package extras/sniff read from its SOURCE (go/ast) in the
+// tree under check ($VERIF_REPO, default /repo).  Sniffer.TCP hands its buffer to the caller,
+// who uses it after other streams have been sniffed by the same Sniffer: the buffer must be
+// owned by the call.  The facts: the package declares no package-level variable that could
+// hold shared state (blank `var _ I = ...` assertions and error sentinels apart), does not
+// import sync, and Sniffer / teeReader keep no byte buffer across calls (teeReader is created
+// per call; Sniffer has its four configuration fields and none of slice/pointer/map/chan type).
+func sniffShape() map[string]any {
+	repo := os.Getenv("VERIF_REPO")
+	if repo == "" {
+		repo = "/repo"
+	}
+	dir := repo + "/extras/sniff"
+	vars, syncImp, snifferBufFields, snifferFields, parsed := 0, 0, 0, 0, 0
+	ents, _ := os.ReadDir(dir)
+	fset := token.NewFileSet()
+	for _, e := range ents {
+		n := e.Name()
+		if e.IsDir() || !strings.HasSuffix(n, ".go") || strings.HasSuffix(n, "_test.go") || strings.HasPrefix(n, "zz_verif") || strings.HasPrefix(n, "mock_") {
+			continue
+		}
+		f, err := parser.ParseFile(fset, dir+"/"+n, nil, 0)
+		if err != nil {
+			continue
+		}
+		parsed++
+		for _, im := range f.Imports {
+			if im.Path.Value == `"sync"` || im.Path.Value == `"sync/atomic"` {
+				syncImp++
+			}
+		}
+		for _, d := range f.Decls {
+			gd, ok := d.(*ast.GenDecl)
+			if !ok {
+				continue
+			}
+			for _, sp := range gd.Specs {
+				switch x := sp.(type) {
+				case *ast.ValueSpec:
+					if gd.Tok != token.VAR {
+						continue
+					}
+					for i, nm := range x.Names {
+						if nm.Name == "_" {
+							continue
+						}
+						if i < len(x.Values) {
+							if c, ok := x.Values[i].(*ast.CallExpr); ok {
+								if se, ok := c.Fun.(*ast.SelectorExpr); ok {
+									if id, ok := se.X.(*ast.Ident); ok && (id.Name == "errors" && se.Sel.Name == "New" || id.Name == "fmt" && se.Sel.Name == "Errorf") {
+										continue
+									}
+								}
+							}
+						}
+						vars++
+					}
+				case *ast.TypeSpec:
+					st, ok := x.Type.(*ast.StructType)
+					if !ok || x.Name.Name != "Sniffer" {
+						continue
+					}
+					for _, fl := range st.Fields.List {
+						snifferFields += len(fl.Names)
+						switch fl.Type.(type) {
+						case *ast.ArrayType, *ast.StarExpr, *ast.MapType, *ast.ChanType:
+							snifferBufFields += len(fl.Names)
+						}
+					}
+				}
+			}
+		}
+	}
+	return map[string]any{
+		"sniff_srcFilesParsed":   uint64(parsed),
+		"sniff_pkgLevelVars":     uint64(vars),
+		"sniff_importsSync":      uint64(syncImp),
+		"sniff_snifferFields":    uint64(snifferFields),
+		"sniff_snifferBufFields": uint64(snifferBufFields),
+	}
 }
 
 type sniffComp struct{}
@@ -708,6 +794,8 @@ func (sniffComp) Gen(r *vh.RNG, n int, emit func(op string, tags ...string)) {
 	emit("udp "+addrHex("1.2.3.4:443")+" "+vh.Hex(d2Packet), "udp-short-header")
 	emit("tcp "+addrHex("222.222.222.222:443")+" "+vh.Hex(suiteTLS)+" - 0", "tls-suite")
 	emit("tcp "+addrHex("1.2.3.4:80")+" "+vh.Hex([]byte("GET / HTTP/1.1\r\nHost: [2001:db8::1]\r\n\r\n"))+" - 0", "http-v6-noport")
+	emit("two 2 "+addrHex("1.2.3.4:443")+" "+vh.Hex(suiteTLS)+" - 0 "+addrHex("5.6.7.8:80")+" "+
+		vh.Hex([]byte("GET /other HTTP/1.1\r\nHost: other.example\r\n\r\n"))+" - 0", "two-TH", "two")
 	// truncation of the suite's QUIC sample and of a small built Initial at every offset
 	small := buildInitial(initialSpec{ver: quicV1, dcid: vh.UnHex("8394c8f03e515708"), pnLen: 2, pn: 1,
 		frames: cryptoFrames(r, buildClientHello(r, "a.b", true, nil, 0, true), 1, 0)})
@@ -729,6 +817,8 @@ func (sniffComp) Gen(r *vh.RNG, n int, emit func(op string, tags ...string)) {
 	for i := 0; i < n; i++ {
 		k := r.Intn(100)
 		switch {
+		case k < 8:
+			genTwo(r, emit)
 		case k < 22:
 			genHTTP(r, emit)
 		case k < 40:
@@ -743,6 +833,30 @@ func (sniffComp) Gen(r *vh.RNG, n int, emit func(op string, tags ...string)) {
 			genUDPGarbage(r, emit)
 		}
 	}
+}
+
+// genTwo: 2..4 streams (every combination of HTTP / TLS / unrecognised) for one shared Sniffer.
+func genTwo(r *vh.RNG, emit func(op string, tags ...string)) {
+	k := r.Pick([]int{2, 2, 2, 3, 4})
+	op := "two " + strconv.Itoa(k)
+	tag := "two-"
+	for i := 0; i < k; i++ {
+		var one string
+		capture := func(o string, _ ...string) { one = o }
+		switch r.Intn(3) {
+		case 0:
+			genHTTP(r, capture)
+			tag += "H"
+		case 1:
+			genTLS(r, capture)
+			tag += "T"
+		default:
+			genGarbageTCP(r, capture)
+			tag += "U"
+		}
+		op += " " + strings.TrimPrefix(one, "tcp ")
+	}
+	emit(op, tag[:6], "two")
 }
 
 func genHTTP(r *vh.RNG, emit func(op string, tags ...string)) {
@@ -1041,6 +1155,8 @@ func (sniffComp) Run(op string) vh.Result {
 		res = runTCP(op, f)
 	case len(f) == 3 && f[0] == "udp":
 		res = runUDP(op, f)
+	case len(f) >= 10 && f[0] == "two":
+		res = runTwo(op, f)
 	default:
 		return vh.Result{Out: "bad-op"}
 	}
@@ -1062,26 +1178,77 @@ func readsCSV(xs []int) string {
 	return strings.Join(ss, ",")
 }
 
-func runTCP(op string, f []string) vh.Result {
-	addr0 := string(vh.UnHex(f[1]))
-	chunks := vh.ParseChunks(f[2])
-	var sent []byte
+// tcpRun is one Sniffer.TCP call whose evaluation is deferred: the putback slice is kept
+// exactly as returned (NOT copied), the way handleTCPRequest keeps it while it dials.
+type tcpRun struct {
+	addr0, addr string
+	sent        []byte
+	st          *scriptStream
+	putback     []byte
+	err         error
+	out, msg    string
+}
+
+func tcpSniff(s *sniff.Sniffer, f []string) *tcpRun {
+	t := &tcpRun{addr0: string(vh.UnHex(f[0]))}
+	chunks := vh.ParseChunks(f[1])
 	for _, c := range chunks {
-		sent = append(sent, c...)
+		t.sent = append(t.sent, c...)
 	}
-	st := &scriptStream{chunks: chunks, dl: -1, fin: f[4] == "1"}
-	if f[3] != "-" {
-		st.dl, _ = strconv.Atoi(f[3])
+	t.st = &scriptStream{chunks: chunks, dl: -1, fin: f[3] == "1"}
+	if f[2] != "-" {
+		t.st.dl, _ = strconv.Atoi(f[2])
 	}
-	s := &sniff.Sniffer{Timeout: time.Hour}
-	addr := addr0
-	var putback []byte
-	var err error
-	var res vh.Result
-	out, msg := vh.GuardMsg(func() string {
-		putback, err = s.TCP(st, &addr)
+	t.addr = t.addr0
+	t.out, t.msg = vh.GuardMsg(func() string {
+		t.putback, t.err = s.TCP(t.st, &t.addr)
 		return "ok"
 	})
+	return t
+}
+
+func runTCP(op string, f []string) vh.Result {
+	t := tcpSniff(&sniff.Sniffer{Timeout: time.Hour}, f[1:5])
+	res, extra := t.finish()
+	res.ModelOp = op + " " + extra
+	return res
+}
+
+// runTwo: k >= 2 streams through ONE Sniffer, one after the other; every stream's oracles
+// are evaluated only after the last one has been sniffed.  The server writes the replay
+// bytes of stream A after its outbound dial completes, and other streams are sniffed by the
+// same Sniffer in the meantime: the returned slice must stay what it was.
+func runTwo(op string, f []string) vh.Result {
+	k, _ := strconv.Atoi(f[1])
+	if k < 2 || len(f) != 2+4*k {
+		return vh.Result{Out: "bad-op"}
+	}
+	s := &sniff.Sniffer{Timeout: time.Hour}
+	runs := make([]*tcpRun, k)
+	for i := 0; i < k; i++ {
+		runs[i] = tcpSniff(s, f[2+4*i:6+4*i])
+	}
+	var res vh.Result
+	outs := make([]string, k)
+	mop := "two " + f[1]
+	for i, t := range runs {
+		r, extra := t.finish()
+		outs[i] = r.Out
+		mop += " " + strings.Join(f[2+4*i:6+4*i], " ") + " " + extra
+		for _, o := range r.Oracle {
+			res.Oracle = append(res.Oracle, fmt.Sprintf("stream %d of %d sniffed in sequence by one Sniffer, evaluated after the last: %s", i+1, k, o))
+		}
+		res.NonTrivial = res.NonTrivial || r.NonTrivial
+	}
+	res.Out = strings.Join(outs, " ; ")
+	res.ModelOp = mop
+	return res
+}
+
+// finish evaluates a run: outcome line, oracles, and the parsers' behaviour for the model
+// (the three fields appended to the stream's four on the model-op line).
+func (t *tcpRun) finish() (res vh.Result, extra string) {
+	addr0, addr, sent, st, putback, err, out, msg := t.addr0, t.addr, t.sent, t.st, t.putback, t.err, t.out, t.msg
 	rest := st.rest()
 	// what the external parsers did (model parameters)
 	post := st.reads
@@ -1104,19 +1271,19 @@ func runTCP(op string, f []string) vh.Result {
 			sni = utlsName(sent[5 : 5+cl])
 		}
 	}
-	res.ModelOp = op + " " + readsCSV(reads) + " " + httpHost + " " + sni
+	extra = readsCSV(reads) + " " + httpHost + " " + sni
 	if out == "panic" {
 		res.Out = "panic"
 		res.Oracle = append(res.Oracle, "Sniffer.TCP panicked: "+msg)
 		res.NonTrivial = true
-		return res
+		return res, extra
 	}
 	if err != nil {
 		res.Out = "abort"
 		if _, _, e := net.SplitHostPort(addr0); e == nil {
 			res.Oracle = append(res.Oracle, fmt.Sprintf("Sniffer.TCP returned an error (%v) for a well-formed request address %q: the connection is dropped", err, addr0))
 		}
-		return res
+		return res, extra
 	}
 	res.Out = "ok pb=" + vh.Hex(putback) + " addr=" + vh.Hex([]byte(addr)) + " rest=" + vh.Hex(rest)
 	res.NonTrivial = st.delivered >= 3
@@ -1176,17 +1343,17 @@ func runTCP(op string, f []string) vh.Result {
 			res.Oracle = append(res.Oracle, "address rewritten on input that is neither HTTP nor TLS")
 		}
 		if isHTTP {
-			if _, _, ok := indepHTTPHost(putback); !ok {
+			if _, _, ok := indepHTTPHost(consumed); !ok {
 				res.Oracle = append(res.Oracle, "address rewritten although the bytes read so far do not contain a complete request with a Host")
 			}
 		}
 		if isTLS {
-			if len(putback) < 5 || len(putback) < 5+(int(sent[3])<<8|int(sent[4])) {
+			if len(consumed) < 5 || len(consumed) < 5+(int(sent[3])<<8|int(sent[4])) {
 				res.Oracle = append(res.Oracle, "address rewritten although the TLS record was not completely read")
 			}
 		}
 	}
-	return res
+	return res, extra
 }
 
 func isLetters(b []byte) bool {
